@@ -436,13 +436,14 @@ func checkC13(c *Checker) {
 	accessorForms(c, "C13-A3")
 	// the pool's refill path is the other way a buffer is allocated: it must be Alloc of the stored allocator,
 	// fresh on every call (C10-P3)
-	c.rule("C13-A4", "the pool's New path returns Alloc[T](stored allocator), a fresh buffer per call (C10-P3)", 2)
+	c.rule("C13-A4", "pooled allocation: the pool's New path returns Alloc[T](argument allocator), a fresh buffer per call (C10-P3), and a recycled buffer is handed out with the allocator's length and capacity, zeroed (C10-P1 length/capacity/zeroed, C10-P2)", 2)
 	sub := newChecker(c.Prop, c.Tier, c.Seed, c.verifDir)
 	sub.W = c.W
 	sub.sums = c.sums
 	poolObligations(sub, "C10-P")
 	for _, o := range sub.Obligs {
-		if o.Rule == "C10-P3" {
+		shape := o.Rule == "C10-P1" && (strings.HasSuffix(o.Instance, "/length") || strings.HasSuffix(o.Instance, "/capacity") || strings.HasSuffix(o.Instance, "/zeroed"))
+		if o.Rule == "C10-P3" || o.Rule == "C10-P2" || shape {
 			c.add("C13-A4", o.Rule+"/"+o.Instance, o.Pos, o.Verdict, o.Detail, o.Witness)
 		}
 	}
